@@ -67,10 +67,13 @@ class Parameter(BaseModel):
             return f"'{escaped}'"
         elif self.type == "date":
             # Format as quoted date string (SQLGlot will handle casting)
-            return f"'{value}'"
+            escaped = str(value).replace("'", "''")
+            return f"'{escaped}'"
         elif self.type == "number":
             # Validate that value is actually numeric to prevent SQL injection
             if isinstance(value, (int, float)):
+                if isinstance(value, float) and not (-float("inf") < value < float("inf")):
+                    raise ValueError(f"Invalid numeric value: {value}")
                 return str(value)
             elif isinstance(value, str):
                 # Try to parse as float to ensure it's valid
